@@ -757,7 +757,7 @@ func (c *Ctx) keySinks() []*keySink {
 			if op == "" {
 				return
 			}
-			sinks = append(sinks, &keySink{Fn: fn, Call: call, Op: op, Arg: arg, Tmpls: k.evalAt(arg)})
+			sinks = append(sinks, &keySink{Fn: fn, Call: call, Op: op, Arg: arg, Tmpls: dropDegenerate(k.evalAt(arg))})
 		})
 	}
 	sort.SliceStable(sinks, func(i, j int) bool {
@@ -1020,4 +1020,31 @@ func (k *keyEvaluator) fieldContents(n *types.Named, f string, depth int) ([]Tmp
 	}
 	k.fieldMemo[key] = out
 	return out, true
+}
+
+
+// dropDegenerate removes a template that is another template of the same sink
+// with its trailing variable part empty ("c:"<x>";d:" next to "c:"<x>";d:"<id>):
+// a variable may be empty anyway, so the shorter one describes no additional
+// key; it typically comes from the zero value on the not-found path of a
+// helper returning (string, bool).
+func dropDegenerate(ts []Tmpl) []Tmpl {
+	var out []Tmpl
+	for i, t := range ts {
+		tn := t.norm()
+		degenerate := false
+		for j, u := range ts {
+			if i == j {
+				continue
+			}
+			un := u.norm()
+			if len(un) == len(tn)+1 && (un[len(un)-1].K == pVar || un[len(un)-1].K == pParam) && Tmpl(un[:len(tn)]).skeleton() == tn.skeleton() && len(tn) > 0 && tn[len(tn)-1].K == pLit {
+				degenerate = true
+			}
+		}
+		if !degenerate {
+			out = append(out, t)
+		}
+	}
+	return out
 }
